@@ -160,7 +160,7 @@ package h2
 //@   ensures[lock-released] !r.flowMu.held
 
 //@ func (*relay).updateInitialWindowSize
-//@   serves C09
+//@   serves C09 C08 C10
 //@   requires r != nil && !r.flowMu.held && bufsOK(r) && within(r, 1099511627776)
 //@   modifies r.initialWindowSize, r.connectionWindowSize, sentConn, outputBuffer.windowSize, outputBuffer.sentS, list.List.gfront, list.List.glen, r.flowMu.held
 //@   ensures[initial-window-installed] r.initialWindowSize == v
@@ -393,7 +393,7 @@ package h2
 //@ pred encReady(r *relay) = !r.encoderMu.held && r.encoder != nil && r.enableDebugLogs != nil
 
 //@ func (*relay).header
-//@   serves C08
+//@   serves C08 C09
 //@   requires relayReady(r) && encReady(r) && frameSizeOK(r)
 //@   at call 0 of enqueueFrame before assert[header-frame-within-max-frame-size] len(chunks) >= 1 && len(chunks[0]) + ite(priority.IsZero(), 0, 5) <= maxPayloadLength
 //@   at call 0 of enqueueFrame before assert[continuations-within-max-frame-size] forall k int :: 1 <= k && k < len(chunks) ==> 1 <= len(chunks[k]) && len(chunks[k]) <= maxPayloadLength
